@@ -81,6 +81,72 @@ def norm(v):
     return json.dumps(v, sort_keys=True)
 
 
+def feature_witness():
+    """Mirror of Lib.features_agree over the regenerated tables: the smallest feature set under which cosmwasm-std defines
+    a message kind that sylvia's conversion has no arm for (or the other way round). None if there is none."""
+    import itertools
+    from .. import translate
+    t = translate.LAST_LIB
+    if not t:
+        return None
+    table = {n: (imp, fwd) for n, imp, fwd in t["feat_table"]}
+    names = list(table)
+    for r in range(0, len(names) + 1):
+        for sub in itertools.combinations(names, r):
+            en = list(sub)
+            for _ in range(len(names)):
+                for f in list(en):
+                    for g in table.get(f, ([], []))[0]:
+                        if g not in en:
+                            en.append(g)
+            std = {x for f in en for x in table.get(f, ([], []))[1]}
+            arms = dict(t["arm_feats"])
+            for v, vf in t["variant_feats"]:
+                vp = all(f in std for f in vf)
+                ap = v in arms and all(f in en for f in arms[v])
+                if vp != ap:
+                    return {"features": list(sub), "variant": v, "variant_present": vp, "arm_present": ap}
+    return None
+
+
+def run_under_features(run, w):
+    """Builds the featdiff harness with exactly the witnessing features and converts a response holding the kind."""
+    import os, shutil, subprocess
+    from .. import common
+    d = os.path.join(common.CACHE, "crates", "featdiff")
+    src = os.path.join(common.VERIF, "harness", "featdiff")
+    os.makedirs(os.path.join(d, "src"), exist_ok=True)
+    feats = ", ".join('"%s"' % f for f in w["features"])
+    with open(os.path.join(d, "Cargo.toml"), "w") as f:
+        f.write(common.repo_paths(open(os.path.join(src, "Cargo.toml")).read().replace("@FEATURES@", feats)))
+    shutil.copy(os.path.join(src, "src", "main.rs"), os.path.join(d, "src", "main.rs"))
+    if not os.path.exists(os.path.join(d, "Cargo.lock")):
+        shutil.copy(os.path.join(common.REPO, "Cargo.lock"), os.path.join(d, "Cargo.lock"))
+    desc = {"cargo_features_of_sylvia": w["features"], "message_kind": w["variant"]}
+    with common.locked("cargo"):
+        env = common.cargo_env({"CARGO_TARGET_DIR": os.path.join(common.CACHE, "target-featdiff")})
+        p = subprocess.run(["cargo", "build", "--offline", "--release"], cwd=d, env=env, capture_output=True, text=True)
+    if p.returncode != 0:
+        err = [l for l in p.stderr.splitlines() if l.startswith("error")][:3]
+        run.oracle_fail("with the sylvia features %s the response conversion does not build: %s" % (w["features"], " | ".join(err)[:300]), desc)
+        return
+    rng = random.Random(1)
+    kind = w["variant"].lower()
+    resp = {"messages": [{"id": 5, "payload": b64("p"), "msg": gen_msg(rng, kind), "gas_limit": 123, "reply_on": "always"}],
+            "attributes": [], "events": [], "data": None}
+    inp = os.path.join(common.WORK, "featdiff_%d.in" % os.getpid())
+    out = inp[:-3] + ".out"
+    with open(inp, "w") as f:
+        f.write(json.dumps(resp) + "\n")
+    exe = os.path.join(common.CACHE, "target-featdiff", "release", "featdiff")
+    subprocess.run([exe, inp, out], check=False)
+    o = json.loads(open(out).read().splitlines()[0]) if os.path.exists(out) else {"err": "no output"}
+    desc["response"] = resp
+    if "ok" not in o and "bad_input" not in o:
+        run.oracle_fail("built with the sylvia features %s, a response holding only a %s message (not custom-typed) fails to convert: %s" % (
+            w["features"], w["variant"], str(o.get("err", o))[:200]), desc)
+
+
 def check(run, replay=None):
     libcommon.replay_setup(run, replay)
     rng = random.Random(run.seed)
@@ -89,6 +155,14 @@ def check(run, replay=None):
                 "ids incl. u64::MAX, payloads, gas limits, all reply triggers, attributes, events, data) converted by the real "
                 "IntoResponse::<MyMsg>::into_response and by the model; every kind alone; non-trivial = distinct response")
     libcommon.preamble(run, "Props/C11", THEOREMS)
+    # search for a failing input when the feature theorem no longer holds: the witnessing feature set, for real
+    try:
+        w = feature_witness()
+        if w is not None:
+            run.notes.append("feature tables disagree: %s" % json.dumps(w))
+            run_under_features(run, w)
+    except Exception as e:      # the search is best effort; the broken theorem is reported in any case
+        run.notes.append("feature witness search failed: %s" % e)
     cases = []
     for k in KINDS:                      # every kind alone, with every reply trigger
         for ro in ("always", "error", "success", "never"):
